@@ -338,6 +338,10 @@ func (s *Swarm) OnGossipUnicast(src mesh.PeerName, buf []byte) (err error) {
 
 	// Go through each message in the decoded frame
 	for i := range frame {
+		if !frame[i].ID.Valid() {
+			continue // Corrupted message, it can not be routed
+		}
+
 		s.OnMessage(&frame[i])
 	}
 
